@@ -493,8 +493,12 @@ impl<R: Round> Context<R> {
             let n = ilog_exact(B, NewB);
             if n > 1 {
                 let exp = repr.exponent * n as isize;
-                return Exact(Repr::new(repr.significand, exp));
+                return self.repr_round(Repr::new(repr.significand, exp));
             }
+        }
+
+        if repr.significand.is_zero() {
+            return Exact(Repr::zero());
         }
 
         // if the base cannot be converted losslessly, the precision must be set
@@ -505,19 +509,59 @@ impl<R: Round> Context<R> {
         // XXX: there's a potential optimization: if B is a multiple of NewB, then the factor B
         // should be trivially removed first, but this requires full support of const generics.
 
-        // choose a exponent threshold such that number with exponent smaller than this value
-        // will be converted by directly evaluating the power. The threshold here is chosen such
-        // that the power under base 10 will fit in a double word.
-        const THRESHOLD_SMALL_EXP: isize = (Word::BITS as f32 * 0.60206) as isize; // word bits * 2 / log2(10)
-        if repr.exponent.abs() <= THRESHOLD_SMALL_EXP {
-            // if the exponent is small enough, directly evaluate the exponent
-            if repr.exponent >= 0 {
-                let signif = repr.significand * Repr::<B>::BASE.pow(repr.exponent as usize);
-                Exact(Repr::new(signif, 0))
+        // If the exponent is not too large, the number is written as an exact fraction and rounded
+        // once in the new base. The threshold keeps the involved integers at a reasonable size.
+        const THRESHOLD_EXACT_EXP: usize = 1 << 17;
+        if repr.exponent.unsigned_abs() <= THRESHOLD_EXACT_EXP {
+            let sign = repr.significand.sign();
+            let (lb, _) = repr.log2_bounds();
+            let (num, den) = if repr.exponent >= 0 {
+                (
+                    shl_digits::<B>(&repr.significand, repr.exponent as usize).unsigned_abs(),
+                    UBig::ONE,
+                )
             } else {
-                let num = Repr::new(repr.significand, 0);
-                let den = Repr::new(Repr::<B>::BASE.pow(-repr.exponent as usize).into(), 0);
-                self.repr_div(num, den)
+                (
+                    repr.significand.unsigned_abs(),
+                    shl_digits::<B>(&IBig::ONE, (-repr.exponent) as usize).unsigned_abs(),
+                )
+            };
+
+            // find the exponent of the top digit in the new base: NewB^top <= num / den < NewB^(top + 1).
+            // It's estimated from the logarithm first and then corrected by exact comparisons.
+            let new_base = UBig::from_word(NewB);
+            let mut top = (lb / NewB.log2_bounds().1) as isize;
+            let (mut lhs, mut rhs) = if top >= 0 {
+                (num.clone(), &den * new_base.pow(top as usize))
+            } else {
+                (&num * new_base.pow((-top) as usize), den.clone())
+            };
+            while lhs < rhs {
+                // num / den < NewB^top
+                top -= 1;
+                lhs *= &new_base;
+            }
+            rhs *= &new_base;
+            while lhs >= rhs {
+                // num / den >= NewB^(top + 1)
+                top += 1;
+                rhs *= &new_base;
+            }
+
+            // scale the number such that the quotient has exactly `precision` digits, then round once
+            let exponent = top - self.precision as isize + 1;
+            let (num, den) = if exponent >= 0 {
+                (num, den * new_base.pow(exponent as usize))
+            } else {
+                (num * new_base.pow((-exponent) as usize), den)
+            };
+            let (q, r) = num.div_rem(&den);
+            let q = sign * q;
+            if r.is_zero() {
+                Exact(Repr::new(q, exponent))
+            } else {
+                let adjust = R::round_ratio(&q, sign * r, &den.into());
+                Inexact(Repr::new(q + adjust, exponent), adjust)
             }
         } else {
             // if the exponent is large, then we first estimate the result exponent as floor(exponent * log(B) / log(NewB)),
